@@ -105,6 +105,10 @@ pub struct Builder<'r> {
     /// locals of the current tx by kind: (name, expr)
     int_locals: Vec<(String, E)>,
     val_locals: Vec<(String, E)>,
+    /// locals bound to a bare policy name / input name: (local, policy or input). What such a local denotes
+    /// depends on where it is mentioned (address vs hash; value vs datum)
+    pol_locals: Vec<(String, String)>,
+    in_locals: Vec<(String, String)>,
     tags: Vec<String>,
 }
 
@@ -114,7 +118,7 @@ const MIXED: &[&str] = &["qTy", "aMount", "deadLine", "oWner", "loCK", "shARe", 
 
 impl<'r> Builder<'r> {
     pub fn new(rng: &'r mut Rng, cfg: Cfg) -> Self {
-        Builder { rng, cfg, counter: 0, g: Generated::default(), cur: TxMeta::default(), cur_tx: TxDef::default(), int_locals: vec![], val_locals: vec![], tags: vec![] }
+        Builder { rng, cfg, counter: 0, g: Generated::default(), cur: TxMeta::default(), cur_tx: TxDef::default(), int_locals: vec![], val_locals: vec![], pol_locals: vec![], in_locals: vec![], tags: vec![] }
     }
 
     fn tag(&mut self, t: &str) {
@@ -189,6 +193,43 @@ impl<'r> Builder<'r> {
         self.cur.params.push(Decl { name: n.clone(), ty: ty.clone(), role });
         self.cur_tx.params.push((n.clone(), ty));
         E::Param(n)
+    }
+
+    /// A mention of policy `pname`: directly, or through a local bound to the bare policy name (the local is an
+    /// address where an address is expected and the hash elsewhere - the meaning is decided at each mention).
+    fn pol_ref(&mut self, pname: String, addr: bool) -> E {
+        let direct = if addr { E::PolicyAddr(pname.clone()) } else { E::PolicyHash(pname.clone()) };
+        match self.pol_locals.iter().find(|(_, p)| *p == pname).cloned() {
+            Some((l, _)) if self.rng.chance(3, 4) => {
+                self.tag(if addr { "policy-through-local:address" } else { "policy-through-local:hash" });
+                E::Local(l, Box::new(direct))
+            }
+            _ => direct,
+        }
+    }
+
+    /// Index of the policy to mention: the one a local is bound to, half of the time.
+    fn policy_pref(&mut self) -> usize {
+        if let Some((_, p)) = self.pol_locals.first().cloned() {
+            if self.rng.bool() {
+                if let Some(i) = self.g.prog.policies.iter().position(|x| x.name == p) {
+                    return i;
+                }
+            }
+        }
+        self.policy()
+    }
+
+    /// A mention of input `iname` as a value or as a datum: directly or through a local bound to the input name.
+    fn in_ref(&mut self, iname: String, datum: bool) -> E {
+        let direct = if datum { E::InputDatum(iname.clone()) } else { E::InputValue(iname.clone()) };
+        match self.in_locals.iter().find(|(_, i)| *i == iname).cloned() {
+            Some((l, _)) if self.rng.chance(3, 4) => {
+                self.tag(if datum { "input-through-local:datum" } else { "input-through-local:value" });
+                E::Local(l, Box::new(direct))
+            }
+            _ => direct,
+        }
     }
 
     fn policy(&mut self) -> usize {
@@ -555,9 +596,10 @@ impl<'r> Builder<'r> {
                 (E::Concat(Box::new(a), Box::new(b)), sa)
             }
             7 if pos == Pos::Datum && depth == 0 && !self.g.prog.policies.is_empty() && self.rng.below(100) < self.cfg.risky_pct => {
-                let p = self.rng.usize(self.g.prog.policies.len());
+                let p = self.policy_pref();
                 self.tag("risky:policy-hash-as-data");
-                (E::PolicyHash(self.g.prog.policies[p].name.clone()), false)
+                let pn = self.g.prog.policies[p].name.clone();
+                (self.pol_ref(pn, false), false)
             }
             _ => (self.hex_lit(None), false),
         }
@@ -629,7 +671,8 @@ impl<'r> Builder<'r> {
         if td.record && pos == Pos::Datum && self.rng.chance(1, 2) {
             let c: Vec<String> = self.cur_tx.inputs.iter().filter(|i| !i.many && i.datum_is == Some(Ty::Custom(td.name.clone()))).map(|i| i.name.clone()).collect();
             if !c.is_empty() {
-                spread = Some(Box::new(E::InputDatum(self.rng.pick(&c).clone())));
+                let src = self.rng.pick(&c).clone();
+                spread = Some(Box::new(self.in_ref(src, true)));
             }
         }
         if spread.is_none() && td.record && depth < 2 && !case.fields.is_empty() && self.rng.chance(1, 6) {
@@ -706,8 +749,9 @@ impl<'r> Builder<'r> {
                 self.tag("any-asset");
                 let pol = if risky && !self.g.prog.policies.is_empty() {
                     self.tag("risky:policy-name-in-any-asset");
-                    let p = self.rng.usize(self.g.prog.policies.len());
-                    E::PolicyHash(self.g.prog.policies[p].name.clone())
+                    let p = self.policy_pref();
+                    let pn = self.g.prog.policies[p].name.clone();
+                    self.pol_ref(pn, false)
                 } else if self.rng.bool() {
                     self.hex_lit(Some(28))
                 } else {
@@ -785,7 +829,7 @@ impl<'r> Builder<'r> {
         if !inputs.is_empty() && self.rng.chance(1, if self.cfg.partial_const { 5 } else { 2 }) {
             let src = self.rng.pick(&inputs).clone();
             self.tag("input-as-assets");
-            let mut e = E::InputValue(src);
+            let mut e = self.in_ref(src, false);
             let k = 1 + self.rng.usize(3);
             if k >= 2 {
                 self.tag("sub-chain>=3");
@@ -822,9 +866,10 @@ impl<'r> Builder<'r> {
             0 | 1 | 2 | 3 => E::Party(self.party()),
             4 => self.param(Ty::Address, Role::Addr),
             5 => {
-                let p = self.policy();
+                let p = self.policy_pref();
                 self.tag("policy-as-address");
-                E::PolicyAddr(self.g.prog.policies[p].name.clone())
+                let pn = self.g.prog.policies[p].name.clone();
+                self.pol_ref(pn, true)
             }
             6 => {
                 self.tag("bech32-literal-address");
@@ -867,6 +912,8 @@ impl<'r> Builder<'r> {
         self.cur_tx = TxDef { name: txname, ..Default::default() };
         self.int_locals.clear();
         self.val_locals.clear();
+        self.pol_locals.clear();
+        self.in_locals.clear();
         if self.rng.chance(1, 3) {
             self.cur_tx.block_order_seed = self.rng.next_u64() | 1;
             self.tag("block-order-shuffled");
@@ -886,6 +933,15 @@ impl<'r> Builder<'r> {
             }
             self.tag("locals");
         }
+        // a local bound to a bare policy name: an address in `to:` / `from:`, the hash in data and asset positions
+        if self.rng.chance(1, 4) {
+            let p = self.policy();
+            let n = self.name("lp");
+            let pn = self.g.prog.policies[p].name.clone();
+            self.cur_tx.locals.push((n.clone(), E::PolicyHash(pn.clone())));
+            self.pol_locals.push((n, pn));
+            self.tag("local-bound-to-policy");
+        }
 
         // inputs
         let nin = 1 + self.rng.usize(3);
@@ -899,8 +955,9 @@ impl<'r> Builder<'r> {
             match self.rng.below(5) {
                 0 | 1 | 2 => inp.from = Some(E::Party(self.party())),
                 3 => {
-                    let p = self.policy();
-                    inp.from = Some(E::PolicyAddr(self.g.prog.policies[p].name.clone()));
+                    let p = self.policy_pref();
+                    let pn = self.g.prog.policies[p].name.clone();
+                    inp.from = Some(self.pol_ref(pn, true));
                     self.tag("policy-as-address");
                 }
                 _ => {}
@@ -1029,6 +1086,18 @@ impl<'r> Builder<'r> {
             };
             self.cur_tx.burns.push(MintBlock { amount, redeemer });
             self.tag("burn");
+        }
+
+        // a local bound to a bare input name (declared after the inputs exist, so that no input block mentions
+        // it): the input's value in asset positions, its datum in data positions
+        if !self.cur_tx.inputs.is_empty() && self.rng.chance(1, 4) {
+            let cands: Vec<String> = self.cur_tx.inputs.iter().filter(|i| !i.many && i.datum_is.is_some()).map(|i| i.name.clone()).collect();
+            let all: Vec<String> = self.cur_tx.inputs.iter().map(|i| i.name.clone()).collect();
+            let iname = if !cands.is_empty() { self.rng.pick(&cands).clone() } else { self.rng.pick(&all).clone() };
+            let n = self.name("li");
+            self.cur_tx.locals.push((n.clone(), E::InputValue(iname.clone())));
+            self.in_locals.push((n, iname));
+            self.tag("local-bound-to-input");
         }
 
         // outputs
@@ -1230,6 +1299,8 @@ impl<'r> Builder<'r> {
         self.cur_tx = TxDef { name: txname, ..Default::default() };
         self.int_locals.clear();
         self.val_locals.clear();
+        self.pol_locals.clear();
+        self.in_locals.clear();
         let owner = self.party();
         let t = self.some_type(Some(true));
         let name = self.name("in");
